@@ -242,3 +242,37 @@ Proof.
   destruct (Reqb (vnorm ROps up) 0); [reflexivity|]. destruct (Reqb (vnorm ROps look) 0); [reflexivity|].
   rewrite (proj2 (Reqb_true 0 0) eq_refl). reflexivity.
 Qed.
+
+(* ---------------- scale invariance: only the directions of up and look matter ---------------- *)
+(* (the repaired code first rescales each vector by a power of two; this is why that changes nothing in exact arithmetic) *)
+Lemma vnorm_scale s v : 0 <= s -> vnorm ROps (vscale ROps s v) = s * vnorm ROps v.
+Proof.
+  intros Hs. dv v. unfold vnorm, vnorm2. vunf.
+  replace (s * x * (s * x) + s * x0 * (s * x0) + s * x1 * (s * x1)) with ((s * s) * (x * x + x0 * x0 + x1 * x1)) by ring.
+  rewrite sqrt_mult by nra. rewrite sqrt_square by exact Hs. reflexivity.
+Qed.
+Lemma Reqb_vnorm_scale s v : 0 < s -> Reqb (vnorm ROps (vscale ROps s v)) 0 = Reqb (vnorm ROps v) 0.
+Proof.
+  intros Hs. rewrite vnorm_scale by lra.
+  destruct (Reqb_spec (s * vnorm ROps v) 0) as [E|E]; destruct (Reqb_spec (vnorm ROps v) 0) as [E'|E']; try reflexivity.
+  - exfalso. apply E'. nra.
+  - exfalso. apply E. rewrite E'. ring.
+Qed.
+Lemma vnormalize_scale_inv s v : 0 < s -> vnorm ROps v <> 0 -> vnormalize ROps (vscale ROps s v) = vnormalize ROps v.
+Proof.
+  intros Hs Hn. unfold vnormalize. rewrite vnorm_scale by lra. set (n := vnorm ROps v) in *. clearbody n.
+  dv v. vec_eq; field; split; lra.
+Qed.
+Lemma up_look_scale_invariant s t up look : 0 < s -> 0 < t ->
+  rotation_from_up_and_look ROps (vscale ROps s up) (vscale ROps t look) = rotation_from_up_and_look ROps up look.
+Proof.
+  intros Hs Ht. rewrite !up_look_unfold, !Reqb_vnorm_scale by assumption.
+  destruct (Reqb_spec (vnorm ROps up) 0) as [E|E]; [reflexivity|].
+  destruct (Reqb_spec (vnorm ROps look) 0) as [E1|E1]; [reflexivity|].
+  assert (Ey : gs_y (vscale ROps s up) = gs_y up) by (apply vnormalize_scale_inv; assumption).
+  assert (Ez : gs_z (vscale ROps s up) (vscale ROps t look) = vscale ROps t (gs_z up look)).
+  { unfold gs_z. rewrite Ey. generalize (gs_y up); intros y. dv y; dv look. vec_eq; ring. }
+  rewrite Ez, Reqb_vnorm_scale by assumption.
+  destruct (Reqb_spec (vnorm ROps (gs_z up look)) 0) as [E2|E2]; [reflexivity|].
+  unfold gs_r. rewrite Ey, Ez, vnormalize_scale_inv by assumption. reflexivity.
+Qed.
